@@ -7,6 +7,7 @@ import (
 	"net/netip"
 	"sort"
 	"strings"
+	"sync"
 	"time"
 
 	"github.com/mycoria/mycoria/config"
@@ -28,6 +29,11 @@ type World struct {
 	Dropped  []string  // frames the (modelled) link writer dropped, with reason
 	Panics   []string
 	nextID   int
+	// mu guards the harness bookkeeping above when handlers run on several
+	// goroutines (controlled-scheduler tiers and their free-running companion
+	// passes). It is a real mutex and never held across a call into the code
+	// under test, so it is no scheduling point and cannot block a schedule.
+	mu sync.Mutex
 	// Intercept, if set, sees every frame handed to a virtual link; returning
 	// false swallows the frame (it neither goes in flight nor into the log).
 	Intercept func(fl *Flight) bool
@@ -73,8 +79,8 @@ func (l *VLink) Started() time.Time               { return time.Time{} }
 func (l *VLink) Uptime() time.Duration            { return 0 }
 func (l *VLink) Latency() uint16                  { return l.Lat }
 func (l *VLink) AddMeasuredLatency(time.Duration) {}
-func (l *VLink) BytesIn() uint64                  { return l.in }
-func (l *VLink) BytesOut() uint64                 { return l.out }
+func (l *VLink) BytesIn() uint64                  { l.W.mu.Lock(); defer l.W.mu.Unlock(); return l.in }
+func (l *VLink) BytesOut() uint64                 { l.W.mu.Lock(); defer l.W.mu.Unlock(); return l.out }
 func (l *VLink) FlowControlIndicator() frame.FlowControlFlag {
 	return frame.FlowControlFlagIncreaseFlow
 }
@@ -97,6 +103,8 @@ func (l *VLink) emit(f frame.Frame, prio bool) error {
 		return nil
 	}
 	data, err := f.FrameDataWithMargins(peering.FrameOffset, peering.FrameOverhead)
+	l.W.mu.Lock()
+	defer l.W.mu.Unlock()
 	if err != nil {
 		l.W.Dropped = append(l.W.Dropped, fmt.Sprintf("%s->%s: %v", l.From.Name, l.To.Name, err))
 		return nil
@@ -185,7 +193,9 @@ func (w *World) InjectVia(link peering.Link, to *Node, raw []byte) (errs []error
 	if link != nil {
 		f.SetRecvLink(link)
 		if vl, ok := link.(*VLink); ok {
+			w.mu.Lock()
 			vl.in += uint64(len(raw))
+			w.mu.Unlock()
 		}
 	}
 	if err := to.Switch().VerifHandleFrame(f); err != nil {
@@ -216,7 +226,9 @@ func (w *World) DrainRouter(n *Node) (errs []error) {
 
 func (w *World) note(n *Node, where string, err error) {
 	if errors.Is(err, mgr.ErrWorkerPanic) {
+		w.mu.Lock()
 		w.Panics = append(w.Panics, fmt.Sprintf("%s/%s: %v", n.Name, where, err))
+		w.mu.Unlock()
 	}
 }
 
